@@ -16,7 +16,7 @@ enum Code { O_CONNECT = 1, O_DISCONNECT, O_EMIT, O_DESTROY_L, O_DESTROY_E, O_CRE
 static const char* codeName[] = {"?", "connect", "disconnect", "emit", "destroy_listener", "destroy_emitter", "create_listener", "create_emitter"};
 static const char* opName(int c) { return (c > 0 && c < O_N) ? codeName[c] : "?"; }
 
-static const int NE = 3, NL = 4;
+static const int NE = 3, NL = 4, NS = 3;
 struct MyEmitter; struct MyListener;
 static void harnessSlot(int lid, int slot, int arg);
 static volatile int sink;
@@ -24,8 +24,10 @@ struct MyEmitter : public Callback::Emitter {
   int id;
   __attribute__((noinline)) void sigA(int v) { sink = v + 1; }
   __attribute__((noinline)) void sigB() { sink = 7; }
+  __attribute__((noinline)) void sigC(int v) { sink = v + 3; }
   void emitA(int v) { emit(&MyEmitter::sigA, v); }
   void emitB() { emit(&MyEmitter::sigB); }
+  void emitC(int v) { emit(&MyEmitter::sigC, v); }
 };
 struct MyListener : public Callback::Listener {
   int id;
@@ -34,7 +36,7 @@ struct MyListener : public Callback::Listener {
   void sb0() { harnessSlot(id, 2, 0); }
 };
 
-struct Conn { int e, sig, l, slot; uint64_t seq; bool live; };           // sig 0 = sigA(int), 1 = sigB(); slots 0,1 take int (sigA), slot 2 takes nothing (sigB)
+struct Conn { int e, sig, l, slot; uint64_t seq; bool live; };           // sig 0 = sigA(int), 1 = sigB(), 2 = sigC(int); slots 0,1 take int (sigA, sigC: one slot may serve both), slot 2 takes nothing (sigB)
 struct Emission { int e, sig; uint64_t startSeq; uint64_t cursorSeq; bool emitterDied; };
 struct Ctx {
   const RunSpec* spec; MyEmitter* em[NE]; MyListener* li[NL];
@@ -48,9 +50,11 @@ static bool eligible(const Conn& c, const Emission& m) { return c.live && c.e ==
 static void doConnect(int e, int sig, int l, int slot) {
   if (!C.em[e] || !C.li[l]) return;
   if (sig == 0) { if (slot == 0) Callback::connect(C.em[e], &MyEmitter::sigA, C.li[l], &MyListener::sa0); else Callback::connect(C.em[e], &MyEmitter::sigA, C.li[l], &MyListener::sa1); }
+  else if (sig == 2) { if (slot == 0) Callback::connect(C.em[e], &MyEmitter::sigC, C.li[l], &MyListener::sa0); else Callback::connect(C.em[e], &MyEmitter::sigC, C.li[l], &MyListener::sa1); }
   else Callback::connect(C.em[e], &MyEmitter::sigB, C.li[l], &MyListener::sb0);
   Host h; bool dup = false; for (auto& c : C.conns) if (c.live && c.e == e && c.sig == sig && c.l == l && c.slot == slot) dup = true;
   if (dup) probe("duplicate_connection");
+  for (auto& c : C.conns) if (c.live && c.e == e && c.sig != sig && c.l == l && c.slot == slot) probe("slot_on_two_signals_of_one_emitter");
   if (outermostStart(e, sig) != ~0ULL) probe("connect_during_emission");
   C.conns.push_back(Conn{e, sig, l, slot, ++C.seq, true});
 }
@@ -60,13 +64,14 @@ static void doDisconnect(int e, int sig, int l, int slot) {
   if (!victim) return;                      // only existing connections are disconnected (anything else is caller misuse)
   { Host h; for (auto& m : C.stack) if (m.e == e && m.sig == sig && victim->seq > m.cursorSeq && victim->seq < outermostStart(e, sig)) probe("disconnect_pending_slot"); victim->live = false; ++C.seq; }
   if (sig == 0) { if (slot == 0) Callback::disconnect(C.em[e], &MyEmitter::sigA, C.li[l], &MyListener::sa0); else Callback::disconnect(C.em[e], &MyEmitter::sigA, C.li[l], &MyListener::sa1); }
+  else if (sig == 2) { if (slot == 0) Callback::disconnect(C.em[e], &MyEmitter::sigC, C.li[l], &MyListener::sa0); else Callback::disconnect(C.em[e], &MyEmitter::sigC, C.li[l], &MyListener::sa1); }
   else Callback::disconnect(C.em[e], &MyEmitter::sigB, C.li[l], &MyListener::sb0);
 }
 static void doEmit(int e, int sig, int arg) {
   if (!C.em[e] || C.stack.size() >= 4 || C.invocations > 150) return;
   { Host h; if (outermostStart(e, sig) != ~0ULL) probe("nested_same_signal"); C.stack.push_back(Emission{e, sig, ++C.seq, 0, false}); }
   MyEmitter* em = C.em[e];
-  if (sig == 0) em->emitA(arg); else em->emitB();
+  if (sig == 0) em->emitA(arg); else if (sig == 2) em->emitC(arg); else em->emitB();
   Host h;
   Emission m = C.stack.back();
   if (!m.emitterDied && C.em[e] == em) {
@@ -90,7 +95,7 @@ static void doCreateEmitter(int e) { if (C.em[e]) return; C.em[e] = new MyEmitte
 
 static void perform(int code, int a0, int a1, int a2, int a3) {
   logEvent("op", code, a0 * 1000 + a1 * 100 + a2 * 10 + a3);
-  int e = a0 % NE, l = a1 % NL, sig = a2 % 2, slot = sig == 0 ? a3 % 2 : 2;
+  int e = a0 % NE, l = a1 % NL, sig = a2 % NS, slot = sig != 1 ? a3 % 2 : 2;
   switch (code) {
   case O_CONNECT: doConnect(e, sig, l, slot); break;
   case O_DISCONNECT: doDisconnect(e, sig, l, slot); break;
@@ -125,9 +130,9 @@ static void harnessSlot(int lid, int slot, int arg) {
   // re-entrant actions chosen on line
   int n = choose(K_HARNESS, 3);
   for (int i = 0; i < n; ++i) {
-    int v = choose(K_HARNESS2, 7 * NE * NL * 2 * 2);
+    int v = choose(K_HARNESS2, 7 * NE * NL * NS * 2 * 2);
     if (!v) continue;
-    int code = 1 + v % 7; v /= 7; int a0 = v % NE; v /= NE; int a1 = v % NL; v /= NL; int a2 = v % 2; v /= 2; int a3 = v % 2;
+    int code = 1 + v % 7; v /= 7; int a0 = v % NE; v /= NE; int a1 = v % NL; v /= NL; int a2 = v % NS; v /= NS; int a3 = v % 2; v /= 2;
     if (v & 1) { a0 = C.stack.back().e; a2 = C.stack.back().sig; }          // bias: act on the signal being emitted
     if (code == O_DESTROY_L && (a3 & 1)) a1 = lid;                               // bias: destroy own listener
     if (code == O_DISCONNECT && (a3 & 1)) { a1 = lid; a3 = slot; }                // bias: disconnect itself
@@ -136,12 +141,14 @@ static void harnessSlot(int lid, int slot, int arg) {
   }
 }
 
+static Callback::MemberFuncPtr sigKey(int sig) { return sig == 0 ? Callback::MemberFuncPtr(&MyEmitter::sigA) : sig == 1 ? Callback::MemberFuncPtr(&MyEmitter::sigB) : Callback::MemberFuncPtr(&MyEmitter::sigC); }
+static Callback::MemberFuncPtr slotKey(int slot) { return slot == 0 ? Callback::MemberFuncPtr(&MyListener::sa0) : slot == 1 ? Callback::MemberFuncPtr(&MyListener::sa1) : Callback::MemberFuncPtr(&MyListener::sb0); }
 // both sides' bookkeeping must describe exactly the model's live connections
 static void checkBookkeeping() {
   for (int e = 0; e < NE; ++e) { MyEmitter* em = C.em[e]; if (!em) continue;
-    for (int sig = 0; sig < 2; ++sig) {
+    for (int sig = 0; sig < NS; ++sig) {
       std::vector<Conn> exp; { Host h; for (auto& c : C.conns) if (c.live && c.e == e && c.sig == sig) exp.push_back(c); }
-      Callback::MemberFuncPtr key = sig == 0 ? Callback::MemberFuncPtr(&MyEmitter::sigA) : Callback::MemberFuncPtr(&MyEmitter::sigB);
+      Callback::MemberFuncPtr key = sigKey(sig);
       Map<Callback::MemberFuncPtr, Callback::Emitter::SignalData>::Iterator it = em->signalData.find(key);
       size_t n = 0;
       if (it != em->signalData.end()) {
@@ -151,6 +158,7 @@ static void checkBookkeeping() {
           if (i->state != Callback::Emitter::Slot::connected) fail("C12/bookkeeping/stale_slot_state", "emitter %d signal %d entry %zu is in state %d outside any emission", e, sig, n, (int)i->state);
           if (n >= exp.size()) fail("C12/bookkeeping/extra_emitter_entry", "emitter %d signal %d lists %zu+ entries, %zu connections are live", e, sig, n + 1, exp.size());
           MyListener* ml = C.li[exp[n].l];
+          if (i->receiver == (Callback::Listener*)ml && !(i->slot == slotKey(exp[n].slot))) fail("C12/bookkeeping/emitter_entry_mismatch", "emitter %d signal %d entry %zu names another slot of listener %d than connection #%zu (slot %d)", e, sig, n, exp[n].l, n, exp[n].slot);
           if (i->receiver != (Callback::Listener*)ml) fail("C12/bookkeeping/emitter_entry_mismatch", "emitter %d signal %d entry %zu refers to another listener than connection #%zu (listener %d slot %d)", e, sig, n, n, exp[n].l, exp[n].slot);
         }
       }
@@ -163,6 +171,15 @@ static void checkBookkeeping() {
       Callback::Emitter* em = i.key(); int e = -1; for (int q = 0; q < NE; ++q) if ((Callback::Emitter*)C.em[q] == em) e = q;
       if (e < 0 && (*i).size() > 0) fail("C12/bookkeeping/listener_refers_to_dead_emitter", "listener %d still lists %zu connections to a destroyed emitter", l, (size_t)(*i).size());
       total += (*i).size();
+      if (e >= 0) {     /* the (signal, slot) records for this emitter must be exactly the model's live connections, as a multiset */
+        std::vector<Conn> exp; { Host h; for (auto& c : C.conns) if (c.live && c.l == l && c.e == e) exp.push_back(c); }
+        std::vector<char> used(exp.size(), 0);
+        for (List<Callback::Listener::Signal>::Iterator j = (*i).begin(), jend = (*i).end(); j != jend; ++j) {
+          bool found = false;
+          for (size_t q = 0; q < exp.size() && !found; ++q) if (!used[q] && j->signal == sigKey(exp[q].sig) && j->slot == slotKey(exp[q].slot)) { used[q] = 1; found = true; }
+          if (!found) fail("C12/bookkeeping/listener_record_mismatch", "listener %d holds a (signal, slot) record for emitter %d that matches no live connection (the records of another connection were dropped instead)", l, e);
+        }
+      }
     }
     if (total != expTotal) fail("C12/bookkeeping/listener_count", "listener %d lists %zu connections, %zu are live", l, total, expTotal);
   }
@@ -175,7 +192,7 @@ static void mainTask(void*) {
   for (size_t i = 0; i < s.plan.size(); ++i) { const Op& op = s.plan[i]; perform(op.code, (int)op.a[0], (int)op.a[1], (int)op.a[2], (int)op.a[3]); }
   checkBookkeeping();
   C.finalPhase = 1;
-  for (int e = 0; e < NE; ++e) for (int sig = 0; sig < 2; ++sig) if (C.em[e]) { C.invocations = 0; doEmit(e, sig, 5); }
+  for (int e = 0; e < NE; ++e) for (int sig = 0; sig < NS; ++sig) if (C.em[e]) { C.invocations = 0; doEmit(e, sig, 5); }
   for (int l = 0; l < NL; ++l) doDestroyListener(l);
   for (int e = 0; e < NE; ++e) doDestroyEmitter(e);
 }
@@ -194,13 +211,13 @@ static void generate(RunSpec& s, int tier) {
   auto pickL = [&]() { for (int t = 0; t < 8; ++t) { int l = (int)r(NL); if (lAlive[l]) return l; } return (int)r(NL); };
   int n = 4 + (int)r(12);
   for (int i = 0; i < n; ++i) {
-    Op o; o.task = 0; o.a[0] = pickE(); o.a[1] = pickL(); o.a[2] = (int64_t)r(2); o.a[3] = (int64_t)r(2);
+    Op o; o.task = 0; o.a[0] = pickE(); o.a[1] = pickL(); o.a[2] = (int64_t)r(NS); o.a[3] = (int64_t)r(2);
     uint64_t k = r(100);
     if (i < 3) k = r(38);     // start with a few connections
     o.code = k < 38 ? O_CONNECT : k < 50 ? O_DISCONNECT : k < 84 ? O_EMIT : k < 90 ? O_DESTROY_L : k < 93 ? O_DESTROY_E : k < 97 ? O_CREATE_L : O_CREATE_E;
-    if (o.code == O_CONNECT && !gc.empty() && r(5) == 0) { GC g = gc[r(gc.size())]; o.a[0] = g.e; o.a[1] = g.l; o.a[2] = g.sig; o.a[3] = g.slot == 2 ? 0 : g.slot; }   // duplicate connection
+    if (o.code == O_CONNECT && !gc.empty() && r(5) == 0) { GC g = gc[r(gc.size())]; o.a[0] = g.e; o.a[1] = g.l; o.a[2] = g.sig; o.a[3] = g.slot == 2 ? 0 : g.slot; if (g.sig != 1 && r(2)) o.a[2] = 2 - g.sig; }   // duplicate connection, or the same slot on the emitter's other int signal
     if ((o.code == O_DISCONNECT || o.code == O_EMIT) && !gc.empty() && r(6) != 0) { GC g = gc[r(gc.size())]; o.a[0] = g.e; o.a[2] = g.sig; if (o.code == O_DISCONNECT) { o.a[1] = g.l; o.a[3] = g.slot == 2 ? 0 : g.slot; } }
-    if (o.code == O_CONNECT) gc.push_back(GC{(int)o.a[0], (int)(o.a[2] % 2), (int)o.a[1], (o.a[2] % 2) == 0 ? (int)(o.a[3] % 2) : 2});
+    if (o.code == O_CONNECT) gc.push_back(GC{(int)o.a[0], (int)(o.a[2] % NS), (int)o.a[1], (o.a[2] % NS) != 1 ? (int)(o.a[3] % 2) : 2});
     if (o.code == O_DESTROY_L) lAlive[o.a[1]] = false; if (o.code == O_DESTROY_E) eAlive[o.a[0]] = false; if (o.code == O_CREATE_L) { o.a[1] = (int64_t)r(NL); lAlive[o.a[1]] = true; } if (o.code == O_CREATE_E) { o.a[0] = (int64_t)r(NE); eAlive[o.a[0]] = true; }
     s.plan.push_back(o);
   }
